@@ -229,3 +229,234 @@ Lemma dark_current_seeded_ext (rng1 rng2 : generator) rate n m fpn seed :
   (forall rq, rng1 seed rq = rng2 seed rq) ->
   dark_current_seeded rng1 rate n m fpn seed = dark_current_seeded rng2 rate n m fpn seed.
 Proof. intros H. unfold dark_current_seeded. now rewrite H. Qed.
+
+(* ------------------------------------------------------------------------------------------ *)
+(** * power_spectrum over the reals: zero outside the mask, RMS over the support exactly |rms| *)
+Section PSReal.
+Local Open Scope R_scope.
+
+Definition Risz (x : K RS) : bool := if Req_EM_T x 0 then true else false.   (* x == 0 *)
+Definition Rnrm (c : Z) (s : K RS) : K RS := sqrt (IZR c / s).                   (* np.sqrt(c / s) *)
+
+Lemma Risz_true x : Risz x = true <-> x = 0.
+Proof. unfold Risz. destruct (Req_EM_T x 0); split; intros; congruence. Qed.
+Lemma Risz_false x : Risz x = false <-> x <> 0.
+Proof. unfold Risz. destruct (Req_EM_T x 0); split; intros; congruence. Qed.
+
+Lemma sumnR_nonneg n (f : nat -> R) : (forall i, (i < n)%nat -> 0 <= f i) -> 0 <= @sumn RS n f.
+Proof. induction n as [|n IH]; intros H; cbn [sumn]; [cbn; lra|].
+  assert (0 <= @sumn RS n f) by (apply IH; intros; apply H; lia).
+  assert (0 <= f n) by (apply H; lia). cbn [RS kadd K] in *. lra. Qed.
+Lemma sumnR_ge_term n (f : nat -> R) k : (forall i, (i < n)%nat -> 0 <= f i) -> (k < n)%nat ->
+  f k <= @sumn RS n f.
+Proof. induction n as [|n IH]; intros H Hk; [lia|]. cbn [sumn].
+  assert (0 <= @sumn RS n f) by (apply sumnR_nonneg; intros; apply H; lia).
+  assert (0 <= f n) by (apply H; lia).
+  destruct (Nat.eq_dec k n) as [->|Hne]; cbn [RS kadd K] in *; [lra|].
+  assert (f k <= @sumn RS n f) by (apply IH; [intros; apply H|]; lia). lra. Qed.
+
+Lemma ps_ss_pos (opd : arr RS) i j :
+  (0 <= i < nr opd)%Z -> (0 <= j < nc opd)%Z -> get opd i j <> 0 -> 0 < ps_ss opd.
+Proof. intros Hi Hj Hx. unfold ps_ss, sumZ.
+  set (g := fun i0 : nat => @sumn RS (Z.to_nat (nc opd))
+             (fun j0 => (get opd (Z.of_nat i0) (Z.of_nat j0) * get opd (Z.of_nat i0) (Z.of_nat j0))%K)).
+  assert (Hsq : forall x : R, 0 <= x * x) by (intros; nra).
+  assert (Hg : forall i0, 0 <= g i0).
+  { intros i0. apply sumnR_nonneg. intros j0 _. cbn [RS kmul K]. apply Hsq. }
+  apply Rlt_le_trans with (g (Z.to_nat i)).
+  - unfold g. set (h := fun j0 : nat => (get opd (Z.of_nat (Z.to_nat i)) (Z.of_nat j0) *
+                                          get opd (Z.of_nat (Z.to_nat i)) (Z.of_nat j0))%K).
+    apply Rlt_le_trans with (h (Z.to_nat j)).
+    + unfold h. rewrite !Z2Nat.id by lia. cbn [RS kmul K] in *. nra.
+    + apply sumnR_ge_term; [|lia]. intros j0 _. unfold h. cbn [RS kmul K]. apply Hsq.
+  - apply (sumnR_ge_term _ g); [intros; apply Hg | lia]. Qed.
+
+Lemma count2_ext (S T : Scalar) (p : S -> bool) (q : T -> bool) (a : arr S) (b : arr T) :
+  nr a = nr b -> nc a = nc b ->
+  (forall i j, (0 <= i < nr a)%Z -> (0 <= j < nc a)%Z -> p (get a i j) = q (get b i j)) ->
+  count2 p a = count2 q b.
+Proof. intros Hr Hc H. unfold count2. rewrite <- Hr, <- Hc.
+  apply (sumZ_ext ZS). intros i Hi. apply (sumZ_ext ZS). intros j Hj. now rewrite H. Qed.
+
+Section Fixed.
+Variables (opd : arr RS) (rms : R).
+Hypothesis nonzero : exists i j, in_range opd i j /\ get opd i j <> 0.
+
+Let cnt := ps_count Risz opd.
+Let ss := ps_ss opd.
+Let c := Rnrm cnt ss.
+
+Lemma ps_cnt_pos : (1 <= cnt)%Z.
+Proof. destruct nonzero as (i & j & (Hi & Hj) & Hx). unfold cnt, ps_count.
+  apply (count2_pos RS _ opd i j Hi Hj). apply negb_true_iff. now apply Risz_false. Qed.
+Lemma ps_ss_pos' : 0 < ss.
+Proof. destruct nonzero as (i & j & (Hi & Hj) & Hx). exact (ps_ss_pos opd i j Hi Hj Hx). Qed.
+Lemma ps_c_sq : c * c = IZR cnt / ss.
+Proof. unfold c, Rnrm. apply sqrt_sqrt. pose proof ps_ss_pos'. pose proof ps_cnt_pos.
+  apply Rmult_le_pos; [apply IZR_le; lia | left; now apply Rinv_0_lt_compat]. Qed.
+Lemma ps_c_pos : 0 < c.
+Proof. unfold c, Rnrm. apply sqrt_lt_R0. pose proof ps_ss_pos'. pose proof ps_cnt_pos.
+  apply Rmult_lt_0_compat; [apply IZR_lt; lia | now apply Rinv_0_lt_compat]. Qed.
+
+(* sum over the whole frame of out^2 = rms^2 * count *)
+Lemma ps_energy :
+  sumZ (nr opd) (fun i => sumZ (nc opd) (fun j =>
+     (ps_scale Risz Rnrm opd rms i j * ps_scale Risz Rnrm opd rms i j)%K))
+  = rms * rms * IZR cnt.
+Proof.
+  rewrite (sumZ_ext RS _ _ (fun i => ((c * rms) * (c * rms) *
+             sumZ (nc opd) (fun j => (get opd i j * get opd i j)%K))%K)).
+  - rewrite (sumZ_scale_l RS RS_ring). fold (ps_ss opd). fold ss.
+    cbn [RS kmul K]. replace (c * rms * (c * rms) * ss) with (c * c * rms * rms * ss) by ring.
+    rewrite ps_c_sq. pose proof ps_ss_pos'. field. lra.
+  - intros i _. rewrite <- (sumZ_scale_l RS RS_ring). apply (sumZ_ext RS). intros j _.
+    unfold ps_scale. fold cnt. fold ss. fold c. cbn [RS kmul K]. ring. Qed.
+
+Lemma ps_scale_zero_iff i j : rms <> 0 -> (ps_scale Risz Rnrm opd rms i j = 0 <-> get opd i j = 0).
+Proof. intros Hr. unfold ps_scale. fold cnt. fold ss. fold c. cbn [RS kmul K]. pose proof ps_c_pos.
+  split; intros H0.
+  - apply Rmult_integral in H0. destruct H0 as [H0|H0]; [|contradiction].
+    apply Rmult_integral in H0. destruct H0 as [H0|H0]; [assumption|lra].
+  - rewrite H0. ring. Qed.
+End Fixed.
+
+(* the statement about power_spectrum_post *)
+Lemma power_spectrum_rms (filt mask : arr RS) (rms : R) :
+  (exists i j, in_range mask i j /\ get filt i j * get mask i j <> 0) ->
+  exists out, power_spectrum_post Risz Rnrm filt mask rms = Some out /\
+    nr out = nr mask /\ nc out = nc mask /\
+    (forall i j, get mask i j = 0 -> get out i j = 0) /\
+    sumZ (nr out) (fun i => sumZ (nc out) (fun j => (get out i j * get out i j)%K))
+      = rms * rms * IZR (ps_count Risz (ps_opd filt mask)) /\
+    (rms <> 0 ->
+       ps_count Risz out = ps_count Risz (ps_opd filt mask) /\
+       (1 <= ps_count Risz out)%Z /\
+       sqrt (sumZ (nr out) (fun i => sumZ (nc out) (fun j => (get out i j * get out i j)%K))
+             / IZR (ps_count Risz out)) = Rabs rms).
+Proof. intros Hnz. set (opd := ps_opd filt mask).
+  assert (Hnz' : exists i j, in_range opd i j /\ get opd i j <> 0).
+  { destruct Hnz as (i & j & Hr & Hx). exists i, j. split; [exact Hr | exact Hx]. }
+  pose proof (ps_cnt_pos opd Hnz') as Hcnt.
+  unfold power_spectrum_post. fold opd.
+  destruct (ps_count Risz opd =? 0)%Z eqn:E; [apply Z.eqb_eq in E; lia|].
+  eexists. split; [reflexivity|]. cbn [nr nc get].
+  assert (Hen := ps_energy opd rms Hnz'). cbn [opd ps_opd nr nc] in Hen. fold opd in Hen.
+  split; [reflexivity|]. split; [reflexivity|]. split; [|split].
+  - intros i j H0. unfold ps_scale. cbn [opd ps_opd get RS kmul K]. rewrite H0. ring.
+  - exact Hen.
+  - intros Hr.
+    assert (Hc : ps_count Risz (mkArr (nr mask) (nc mask) (ps_scale Risz Rnrm opd rms)) = ps_count Risz opd).
+    { unfold ps_count. apply count2_ext; try reflexivity. cbn [nr nc get]. intros i j _ _. f_equal.
+      destruct (Risz (get opd i j)) eqn:E1.
+      - apply Risz_true. apply (ps_scale_zero_iff opd rms Hnz' i j Hr). now apply Risz_true.
+      - apply Risz_false. apply Risz_false in E1. intros H0. apply E1.
+        now apply (ps_scale_zero_iff opd rms Hnz' i j Hr). }
+    rewrite Hc. split; [reflexivity|]. split; [assumption|].
+    rewrite Hen. replace (rms * rms * IZR (ps_count Risz opd) / IZR (ps_count Risz opd)) with (Rsqr rms).
+    + apply sqrt_Rsqr_abs.
+    + unfold Rsqr. field. apply not_0_IZR. lia. Qed.
+
+(* an identically-zero masked draw: 0/0, the code returns a frame of NaN *)
+Lemma power_spectrum_all_zero (filt mask : arr RS) (rms : R) :
+  (forall i j, in_range mask i j -> get filt i j * get mask i j = 0) ->
+  power_spectrum_post Risz Rnrm filt mask rms = None.
+Proof. intros H. unfold power_spectrum_post.
+  replace (ps_count Risz (ps_opd filt mask)) with 0%Z; [reflexivity|].
+  symmetry. unfold ps_count, count2. apply (sumZ_zero_ext ZS ZS_ring). intros i Hi.
+  apply (sumZ_zero_ext ZS ZS_ring). intros j Hj. cbn [ps_opd nr nc get] in *.
+  assert (E : Risz (get filt i j * get mask i j)%K = true) by (apply Risz_true; apply H; split; assumption).
+  rewrite E. reflexivity. Qed.
+End PSReal.
+
+(* ------------------------------------------------------------------------------------------ *)
+(** * cosmic_rays: a sum of non-negative deposits is a non-negative frame of the requested shape *)
+Section CosmicReal.
+Local Open Scope R_scope.
+
+Lemma lsum_nonneg (l : list R) : (forall x, In x l -> 0 <= x) -> 0 <= @lsum RS l.
+Proof. induction l as [|x l IH]; intros H; cbn [lsum]; [cbn; lra|].
+  assert (0 <= x) by (apply H; now left).
+  assert (0 <= @lsum RS l) by (apply IH; intros; apply H; now right).
+  cbn [RS kadd K] in *. lra. Qed.
+
+Definition dep_nonneg (d : deposit RS) : Prop := 0 <= dflux d /\ exists q, ddist d = sqrt q.
+
+Lemma dep_at_nonneg n m i j (d : deposit RS) : dep_nonneg d -> 0 <= dep_at n m i j d.
+Proof. intros (Hf & q & Hq). unfold dep_at. destr_if; cbn [RS kmul k0 K]; [|lra].
+  rewrite Hq. apply Rmult_le_pos; [assumption | apply sqrt_pos]. Qed.
+
+Lemma ray_image_nonneg n m (ds : list (deposit RS)) i j :
+  (forall d, In d ds -> dep_nonneg d) -> 0 <= get (ray_image n m ds) i j.
+Proof. intros H. cbn [ray_image get]. apply lsum_nonneg. intros x Hx.
+  apply in_map_iff in Hx. destruct Hx as (d & <- & Hd). apply dep_at_nonneg. now apply H. Qed.
+
+Lemma cosmic_nonneg n m (rays : list (list (deposit RS))) frame :
+  (forall ds d, In ds rays -> In d ds -> dep_nonneg d) ->
+  cosmic_rays n m rays = Ok frame ->
+  nr frame = n /\ nc frame = m /\ forall i j, 0 <= get frame i j.
+Proof. intros H. unfold cosmic_rays. destr_if; [|discriminate]. intros E. injection E as <-.
+  cbn [nr nc]. split; [reflexivity|]. split; [reflexivity|]. intros i j. cbn [get].
+  apply lsum_nonneg. intros x Hx. apply in_map_iff in Hx. destruct Hx as (ds & <- & Hds).
+  apply ray_image_nonneg. intros d Hd. exact (H ds d Hds Hd). Qed.
+End CosmicReal.
+
+(* an index outside [-n, n) x [-m, m) is an IndexError, as in numpy *)
+Lemma cosmic_index_error (S : Scalar) n m (rays : list (list (deposit S))) ds d :
+  In ds rays -> In d ds -> dep_ok n m d = false -> cosmic_rays n m rays = Err IndexError.
+Proof. intros Hds Hd Hbad. unfold cosmic_rays.
+  destruct (forallb (forallb (dep_ok n m)) rays) eqn:E; [|reflexivity].
+  rewrite forallb_forall in E. specialize (E ds Hds). rewrite forallb_forall in E.
+  rewrite (E d Hd) in Hbad. discriminate. Qed.
+
+(* ------------------------------------------------------------------------------------------ *)
+(** * cosmic_rays conserves the deposited charge (any commutative ring): every deposit lands in
+      exactly one pixel, so the total of the frame is the total of flux*dist over all segments *)
+Section CosmicTotal.
+Variable S : Scalar.
+Hypothesis Sring : is_ring S.
+Add Ring SrC : Sring.
+
+Definition dep_val (d : deposit S) : S := (dflux d * ddist d)%K.
+Definition atotal (a : arr S) : S := sumZ (nr a) (fun i => sumZ (nc a) (fun j => get a i j)).
+
+Lemma sumZ_lsum {A} n (l : list A) (f : Z -> A -> S) :
+  sumZ n (fun i => lsum (map (f i) l)) = lsum (map (fun x => sumZ n (fun i => f i x)) l).
+Proof. induction l as [|x l IH]; cbn [map lsum].
+  - apply (sumZ_zero S Sring).
+  - rewrite (sumZ_add S Sring), IH. reflexivity. Qed.
+
+Lemma wrap_range n i : - n <= i < n -> 0 <= wrap n i < n.
+Proof. intros H. unfold wrap. destr_if; lia. Qed.
+
+Lemma dep_at_total n m (d : deposit S) : dep_ok n m d = true ->
+  sumZ n (fun i => sumZ m (fun j => dep_at n m i j d)) = dep_val d.
+Proof. intros Hok. unfold dep_ok in Hok. rewrite !andb_true_iff in Hok. destruct Hok as (((H1 & H2) & H3) & H4).
+  assert (Hr : 0 <= wrap n (drow d) < n) by (apply wrap_range; lia).
+  assert (Hc : 0 <= wrap m (dcol d) < m) by (apply wrap_range; lia).
+  rewrite (sumZ_ext S _ _ (fun i => if i =? wrap n (drow d) then dep_val d else k0)).
+  - now rewrite (sumZ_delta S Sring n (wrap n (drow d)) (fun _ => dep_val d)).
+  - intros i Hi. unfold dep_at. rewrite (Z.eqb_sym (wrap n (drow d)) i).
+    destruct (i =? wrap n (drow d)); cbn [andb].
+    + rewrite (sumZ_ext S _ _ (fun j => if j =? wrap m (dcol d) then dep_val d else k0)).
+      * now rewrite (sumZ_delta S Sring m (wrap m (dcol d)) (fun _ => dep_val d)).
+      * intros j Hj. now rewrite (Z.eqb_sym (wrap m (dcol d)) j).
+    + apply (sumZ_zero S Sring). Qed.
+
+Lemma ray_image_total n m (ds : list (deposit S)) : forallb (dep_ok n m) ds = true ->
+  atotal (ray_image n m ds) = lsum (map dep_val ds).
+Proof. intros Hok. unfold atotal. cbn [ray_image nr nc get].
+  rewrite (sumZ_ext S _ _ (fun i => lsum (map (fun d => sumZ m (fun j => dep_at n m i j d)) ds)))
+    by (intros i _; apply sumZ_lsum).
+  rewrite sumZ_lsum. f_equal. apply map_ext_in. intros d Hd.
+  apply dep_at_total. rewrite forallb_forall in Hok. now apply Hok. Qed.
+
+Lemma cosmic_total n m (rays : list (list (deposit S))) frame :
+  cosmic_rays n m rays = Ok frame ->
+  atotal frame = lsum (map (fun ds => lsum (map dep_val ds)) rays).
+Proof. unfold cosmic_rays. destruct (forallb (forallb (dep_ok n m)) rays) eqn:Hok; [|discriminate].
+  intros E. injection E as <-. unfold atotal. cbn [nr nc get].
+  rewrite (sumZ_ext S _ _ (fun i => lsum (map (fun ds => sumZ m (fun j => get (ray_image n m ds) i j)) rays)))
+    by (intros i _; apply sumZ_lsum).
+  rewrite sumZ_lsum. f_equal. apply map_ext_in. intros ds Hds.
+  apply (ray_image_total n m ds). rewrite forallb_forall in Hok. now apply Hok. Qed.
+End CosmicTotal.
